@@ -126,7 +126,7 @@ impl Prop for C06T {
         "C06"
     }
     fn budget(&self, thorough: bool) -> u64 {
-        if thorough { 3_000_000 } else { 60_000 }
+        if thorough { 10_000_000 } else { 400_000 }
     }
     fn generate(&self, seed: u64, _thorough: bool) -> Scenario {
         let mut rng = Rng::new(seed);
@@ -270,13 +270,56 @@ impl Prop for C06T {
                     ),
                 });
             }
+            // Expected response stream, cut where a faulty unit sits: what (if anything)
+            // is written for the faulty unit itself is C04's subject, so any bytes are
+            // tolerated exactly there; everything before and after must be as expected.
+            let mut segs_want: Vec<Vec<u8>> = vec![Vec::new()];
             let mut want = Vec::new();
             for t in &chosen {
-                if let Tok::H { resp, .. } = t {
-                    want.extend_from_slice(resp);
+                match t {
+                    Tok::H { resp, .. } => {
+                        want.extend_from_slice(resp);
+                        segs_want.last_mut().unwrap().extend_from_slice(resp);
+                    }
+                    Tok::E(_) => segs_want.push(Vec::new()),
+                    Tok::HFail { .. } => {}
                 }
             }
-            if o.responses() != want {
+            let got = o.responses();
+            let matches_with_gaps = {
+                let mut pos = 0usize;
+                let mut ok = true;
+                let last = segs_want.len() - 1;
+                for (i, sgm) in segs_want.iter().enumerate() {
+                    if i == 0 {
+                        if got.len() >= sgm.len() && got[..sgm.len()] == sgm[..] {
+                            pos = sgm.len();
+                        } else {
+                            ok = false;
+                            break;
+                        }
+                    } else if i == last {
+                        if got.len() >= pos + sgm.len() && got[got.len() - sgm.len()..] == sgm[..] {
+                            pos = got.len();
+                        } else {
+                            ok = false;
+                            break;
+                        }
+                    } else if sgm.is_empty() {
+                        continue;
+                    } else {
+                        match got[pos..].windows(sgm.len()).position(|w| w == &sgm[..]) {
+                            Some(k) => pos += k + sgm.len(),
+                            None => {
+                                ok = false;
+                                break;
+                            }
+                        }
+                    }
+                }
+                ok
+            };
+            if !matches_with_gaps {
                 return Some(Verdict::Violation {
                     class: format!("responses-affected-{mode}"),
                     detail: format!("response bytes differ ({mode}): got [{}] expected [{}]\n    got:{}", crate::scenario::show(&o.responses()), crate::scenario::show(&want), brief(o)),
